@@ -19,6 +19,58 @@ import prims_common as pc
 import serial_common as sc
 
 
+def model_loaders(ck, hist):
+    """serialize::lambda::load on damaged model streams: the saved text of a trained model of every kind cut at every
+    token boundary (-1, 0, +1) and with single tokens substituted / removed (done by harness/h_lambda.cc, D cases).
+    Documented outcomes: a model, nullptr, exception::data_format; nothing else, no sanitizer report."""
+    import c08
+    rnd = ck.rng
+    if ck.replay_path:
+        rp = json.load(open(ck.replay_path))
+        lines = [rp["model_case"]] if "model_case" in rp else []
+    else:
+        # majority-vote teams only in the thorough tier: a damaged class count makes the loaded model allocate its
+        # vote table for minutes before std::length_error (known finding MODEL-load:mv-team:classes-not-validated)
+        lines = [c08.case_line("D", c08.gen_header(rnd, combo)) for combo in c08.COMBOS_T
+                 if ck.thorough or not combo.endswith("/mv")
+                 for _ in range(3 if ck.thorough else 2)]
+    if not lines:
+        return
+    hl = vv.build_harness("h_lambda")
+    out, crashes = pc.run_harness_resilient(hl, lines)
+    for i, line in enumerate(lines):
+        ck.count()
+        w = line.split()
+        combo = w[1] + "/" + w[2]
+        hist["MODEL-load:" + combo] = hist.get("MODEL-load:" + combo, 0) + 1
+        ho = out[i]
+        replay = {"model_case": line, "impl": (ho or "")[:600]}
+        if ho is None or ho.startswith("CRASH"):
+            rep = crashes.get(i, "")
+            dl = [x for x in rep.splitlines() if x.startswith("D-")]
+            replay.update({"variant": dl[-1] if dl else None, "sanitizer": rep[-2500:]})
+            ck.add_violation("MODEL-load:%s:sanitizer-report" % combo,
+                             "%s: a damaged model stream (variant %s) makes serialize::lambda::load or the loaded model "
+                             "crash / access memory out of bounds" % (combo, dl[-1] if dl else "?"), replay)
+            continue
+        tk = ho.split()
+        if "R" not in tk or "other" not in tk:
+            ck.add_diff({"model_case": line}, "", ho, "harness protocol (h_lambda D case)")
+            continue
+        nvar = int(tk[tk.index("d") + 1]) if "d" in tk else 0
+        ck.count(max(nvar - 1, 0))
+        ck.nontriv(("MODEL-load", line))
+        nother = int(tk[tk.index("other") + 1])
+        if nother > 0:
+            first = tk[tk.index("other") + 2]
+            key = ("MODEL-load:mv-team:classes-not-validated" if w[2] == "mv" and "length_error" in first
+                   else "MODEL-load:%s:undocumented-exception" % combo)
+            ck.add_violation(key, "%s: a damaged model stream makes serialize::lambda::load / the loaded model throw %s "
+                                  "instead of exception::data_format (or returning nullptr)" % (combo, first), replay)
+        if i < 1:
+            ck.sample({"model_loader": combo, "damaged_variants": nvar, "outcomes": " ".join(tk[tk.index("R"):][:12])})
+
+
 def run(ck):
     harness, model = sc.build(ck)
     ck.add_proof(vv.prove("Properties_C12", set()))
@@ -134,6 +186,8 @@ def run(ck):
         if mout.get(i) != want:
             ck.add_diff({"target": list(t), "kind": kind, "flags": fl, "stream_hex": sc.hexs(d)}, (mout.get(i) or "")[:600], want[:600],
                         "model and implementation disagree on load of a damaged stream")
+    # ---- the trained models: damaged streams fed to serialize::lambda::load (harness of C08, reused read-only)
+    model_loaders(ck, hist)
     ck.coverage["per_type"] = hist
     ck.coverage["failed_loads"] = nfail
     ck.coverage["allocation_aborts_not_judged"] = nalloc
@@ -146,4 +200,5 @@ def run(ck):
              + ", deletion of single tokens and digit-count preserving substitutions (all 9s, all 0s, each digit +1, a "
                "non-numeric token, a lone sign, a damaged exponent), loaded by the real load() into a target of the same "
                "type: one built by an unrelated history, one of exactly the shape of the serialised object with every value replaced, and (populations) both again with load() given a second, distinct problem object, the problem a population is bound to being part of the snapshot; non-trivial = the real load() reported failure; distinct = distinct "
-               "(type, damage kind, stream)")
+               "(type, damage kind, stream); plus, for trained models of 11 kinds, the saved text damaged the same way and fed to "
+               "serialize::lambda::load (harness of C08): only a model, nullptr or exception::data_format may come out")
